@@ -183,7 +183,27 @@ pub async fn behaviours(w: &Arc<World>, seed: u64, stall_16: u32, yield_intensit
                         (&mgr_pid, Val::tuple(vec![Val::atom("$gen_call"), Val::tuple(vec![pid_val(&clients[*client]), reference.clone()]), Val::Atom(format!("h{}", handler)), req.clone()]))
                     }
                 };
-                if let Err(e) = node.send(to, from_val(&body)).await {
+                // the other way in: the process's handle, with an envelope sender that is somebody else
+                // (a relayed call); the answer still belongs to the caller named in the call
+                let via_handle = w.chance(1, 5);
+                let sent = if via_handle {
+                    match node.registry().get(to).await {
+                        Some(h) => {
+                            w.stat("probe.c18.sent_through_the_process_handle");
+                            let relay = clients[(w.draw(clients.len() as u32)) as usize].clone();
+                            let from = match w.draw(3) {
+                                0 => None,
+                                1 => Some(relay),
+                                _ => Some(srv.clone()),
+                            };
+                            h.send(edp_node::Message::Regular { from, body: from_val(&body) }).await.map_err(|e| e.to_string())
+                        }
+                        None => Err("no handle for a live behaviour process".to_string()),
+                    }
+                } else {
+                    node.send(to, from_val(&body)).await.map_err(|e| e.to_string())
+                };
+                if let Err(e) = sent {
                     w.violation("behaviour-send-failed", format!("send to a live behaviour process failed: {}", e));
                 }
             }
